@@ -51,6 +51,56 @@ def unknown(prov=()):
     return V("unknown", None, prov)
 
 
+def _comprehension_as_loops(stmt):
+    """``name = [elt for a in A for b in B if c]`` (also dict / set
+    displays) as ``name = []`` + nested loops with ``name.append(elt)``;
+    None for anything else (single-clause list comprehensions without a
+    filter stay expressions: they fold directly)"""
+    if not (isinstance(stmt, ast.Assign) and len(stmt.targets) == 1
+            and isinstance(stmt.targets[0], ast.Name)):
+        return None
+    v = stmt.value
+    if not isinstance(v, (ast.ListComp, ast.DictComp)):
+        return None
+    if isinstance(v, ast.ListComp) and len(v.generators) == 1 \
+            and not v.generators[0].ifs:
+        return None
+    if any(g.is_async for g in v.generators):
+        return None
+    cached = getattr(stmt, "_as_loops", None)
+    if cached is not None:
+        return cached
+    name = stmt.targets[0].id
+    # the comprehension's own variables must not shadow the target
+    for g in v.generators:
+        if any(isinstance(n, ast.Name) and n.id == name
+               for n in ast.walk(g.target)):
+            return None
+    if isinstance(v, ast.ListComp):
+        init = ast.List(elts=[], ctx=ast.Load())
+        inner = ast.Expr(value=ast.Call(
+            func=ast.Attribute(value=ast.Name(id=name, ctx=ast.Load()),
+                               attr="append", ctx=ast.Load()),
+            args=[v.elt], keywords=[]))
+    else:
+        init = ast.Dict(keys=[], values=[])
+        inner = ast.Assign(targets=[ast.Subscript(
+            value=ast.Name(id=name, ctx=ast.Load()), slice=v.key,
+            ctx=ast.Store())], value=v.value)
+    body = inner
+    for g in reversed(v.generators):
+        for c in reversed(g.ifs):
+            body = ast.If(test=c, body=[body], orelse=[])
+        body = ast.For(target=g.target, iter=g.iter, body=[body], orelse=[])
+    out = [ast.Assign(targets=[ast.Name(id=name, ctx=ast.Store())],
+                      value=init), body]
+    for o in out:
+        ast.copy_location(o, stmt)
+        ast.fix_missing_locations(o)
+    stmt._as_loops = out
+    return out
+
+
 class AbsDict:
     """dict with must/may key sets and value provenance"""
 
@@ -232,6 +282,12 @@ class Evaluator:
             yield st, None, None
             return
         head, rest = stmts[0], stmts[1:]
+        loops = _comprehension_as_loops(head)
+        if loops is not None:
+            # `x = [elt for …]` / `x = {k: v for …}` with several clauses or
+            # a filter reads like the loop that builds it
+            yield from self._block(loops + list(rest), st, rel)
+            return
         for st2, sig, val in self._stmt(head, st, rel):
             if sig is None:
                 yield from self._block(rest, st2, rel)
@@ -580,6 +636,27 @@ class Evaluator:
                             t = not t
                         yield st3, t, a.prov | b.prov
                 return
+        if isinstance(e, ast.Call) and isinstance(e.func, ast.Name) \
+                and e.func.id in ("any", "all") and len(e.args) == 1 \
+                and not e.keywords and "any" not in st.env \
+                and "all" not in st.env and isinstance(
+                    e.args[0], (ast.GeneratorExp, ast.ListComp)) \
+                and len(e.args[0].generators) == 1 \
+                and not e.args[0].generators[0].ifs:
+            # any()/all() over a concrete table is the or / and of its
+            # elements, with the same short-circuit forks
+            gen = e.args[0].generators[0]
+            handled = False
+            for st2, it in self._expr(gen.iter, st, rel):
+                items = self._concrete_items(it)
+                if items is None:
+                    break
+                handled = True
+                yield from self._anyall(e.args[0].elt, gen.target, items,
+                                        e.func.id == "any", st2, rel,
+                                        set(it.prov))
+            if handled:
+                return
         for st2, v in self._expr(e, st, rel):
             t = None
             if v.kind == "const":
@@ -593,6 +670,29 @@ class Evaluator:
             elif v.kind in ("ds", "cfg", "sec", "func"):
                 t = True
             yield st2, t, v.prov
+
+    def _anyall(self, elt, target, items, is_any, st, rel, prov):
+        if not items:
+            yield st, (not is_any), prov
+            return
+        saved = {n.id: st.env.get(n.id) for n in ast.walk(target)
+                 if isinstance(n, ast.Name)}
+        self._assign(target, items[0], st, rel)
+        for st2, t, p in self._cond(elt, st, rel):
+            for k, v in saved.items():
+                if v is None:
+                    st2.env.pop(k, None)
+                else:
+                    st2.env[k] = v
+            if t is not None and t == is_any:
+                yield st2, t, prov | p          # short circuit
+            elif t is not None:
+                yield from self._anyall(elt, target, items[1:], is_any, st2,
+                                        rel, prov | p)
+            else:
+                yield st2.fork(), is_any, prov | p
+                yield from self._anyall(elt, target, items[1:], is_any, st2,
+                                        rel, prov | p)
 
     def _boolop(self, values, is_and, st, rel):
         head, rest = values[0], values[1:]
